@@ -15,6 +15,8 @@ def templates(tier="quick"):
     v0 = Variant("v0", [Stmt("a", ex=["s"]), Stmt("b", ex=["s"]), Stmt("c", ex=["b"]), Stmt("r", ex=["t"], restat=True)])
     # the same project after 'c' was dropped from the manifest (its record becomes dead once the file is gone)
     v1 = Variant("v1", [Stmt("a", ex=["s"]), Stmt("b", ex=["s"]), Stmt("r", ex=["t"], restat=True)])
+    # ... and after b's statement was dropped while c still reads b: b is a source now, named only as an input
+    v2 = Variant("v2", [Stmt("a", ex=["s"]), Stmt("c", ex=["b"]), Stmt("r", ex=["t"], restat=True)])
     ops = [
         {"op": "edit", "path": "s", "label": "edit s"},
         {"op": "touch", "path": "t", "label": "touch t"},
@@ -24,6 +26,7 @@ def templates(tier="quick"):
         {"op": "duplog", "path": "a", "content": "400", "label": "400 more records of a in the log (long history)"},
         {"op": "variant", "to": 1, "label": "manifest:=v1 (c dropped)"},
         {"op": "variant", "to": 0, "label": "manifest:=v0"},
+        {"op": "variant", "to": 2, "label": "manifest:=v2 (b's statement dropped, b still an input)"},
     ]
     build = len(ops)
     ops += [ninja_op(j=2), ninja_op(j=2, targets=["a"]), ninja_op(j=1, dry_run=True, flags=["-n"]),
@@ -39,14 +42,15 @@ def templates(tier="quick"):
         f["no_expand"] = True
         fops.append(f)
     ops += fops
-    T.append(scenario("c08/log_tools/built", "c08", [v0, v1], ops=ops, init=[build], depth=d, tags=["buildlog", "tools"]))
+    T.append(scenario("c08/log_tools/built", "c08", [v0, v1, v2], ops=ops, init=[build], depth=d, tags=["buildlog", "tools"]))
     # a long history already in place
     dup = next(i for i, o in enumerate(ops) if o["op"] == "duplog")
-    T.append(scenario("c08/log_tools/long_history", "c08", [v0, v1], ops=ops, init=[build, dup], depth=d,
+    T.append(scenario("c08/log_tools/long_history", "c08", [v0, v1, v2], ops=ops, init=[build, dup], depth=d,
                       tags=["buildlog", "tools", "recompaction"]))
     # the same project with `builddir` bound: the log lives in bd/
     b0 = Variant("v0", v0.stmts, header="builddir = bd")
     b1 = Variant("v1", v1.stmts, header="builddir = bd")
+    b2 = Variant("v2", v2.stmts, header="builddir = bd")
     # (`-t restat` runs before the manifest is read and has to be told: --builddir=DIR)
     import copy
     bops = copy.deepcopy(ops)
@@ -54,12 +58,12 @@ def templates(tier="quick"):
         if o.get("tool") and o.get("tool_kind") == "restat":
             o["flags"] = ["-t", "restat", "--builddir=bd"] + list(o.get("tool_args", []))
             o["label"] = "ninja " + " ".join(o["flags"]) + (" [a fault at every file operation]" if o.get("crash") else "")
-    T.append(scenario("c08/log_tools/builddir", "c08", [b0, b1], ops=bops, init=[build], depth=d, tags=["buildlog", "tools", "builddir"],
+    T.append(scenario("c08/log_tools/builddir", "c08", [b0, b1, b2], ops=bops, init=[build], depth=d, tags=["buildlog", "tools", "builddir"],
                       builddir="bd"))
     # logs of unsupported versions (older and newer), with plausible content
     for ver in (4, 6, 8, 70):
         log = "# ninja log v%d\n1\t2\t1700000000000000000\ta\tabcdef\n3\t4\t1700000000000000000\tb\t123456\n" % ver
-        T.append(scenario("c08/unsupported_v%d" % ver, "c08", [v0, v1], files={".ninja_log": log}, ops=ops, init=[], depth=2,
+        T.append(scenario("c08/unsupported_v%d" % ver, "c08", [v0, v1, v2], files={".ninja_log": log}, ops=ops, init=[], depth=2,
                           tags=["buildlog", "version"]))
     # a generator statement in the middle of a build (ninja closes the log around it and reopens it lazily)
     g0 = Variant("v0", [Stmt("pre", ex=["s"]), Stmt("cfg", ex=["pre", "cfg.in"], generator=True), Stmt("a", ex=["cfg"]),
